@@ -57,7 +57,11 @@ def run(eng, R):
                  "for members without determinant term the probability is evaluated at the wrong value" % (cname, norm_stmt(bad) if bad else "none found"))
             rets = [r for r in ast.walk(f.node) if isinstance(r, ast.Return) and r.value is not None]
             ok = bool(rets) and all(isinstance(r.value, ast.Call) and isinstance(r.value.func, ast.Attribute) and r.value.func.attr == "chi2_probability"
-                                    and len(r.value.args) == 2 and ast.unparse(r.value.args[0]) == "_cost" and ast.unparse(r.value.args[1]) == "self.ndf" for r in rets)
+                                    and len(r.value.args) == 2 and isinstance(r.value.args[0], ast.Name) and r.value.args[0].id in {n.target.id for n in subs}   # (the accumulator the terms were taken off)
+                                    and ast.unparse(r.value.args[1]) == "self.ndf" for r in rets) \
+                and len({n.target.id for n in subs}) == 1 \
+                and any(isinstance(a, ast.Assign) and len(a.targets) == 1 and isinstance(a.targets[0], ast.Name) and a.targets[0].id in {n.target.id for n in subs}
+                        and ast.unparse(a.value) == "self.cost_function_value" for a in ast.walk(f.node))
             R.ob("H-prob", "%s.chi2_probability:call" % cname, ok, (f.file, f.lineno), "%s.chi2_probability must evaluate the cost function's chi2_probability at (cost - determinant, self.ndf)" % cname)
 
     # ---- goodness of fit
